@@ -361,6 +361,20 @@ func driveHD(rc *RunCtx) {
 			}
 			msg := new(big.Int).SetBytes(randBytes(31))
 			w := rc.NewWorld(fmt.Sprintf("sign%d", step))
+			// what the caller holds and hands to the parties (the adjusted copies): must come back unchanged
+			held := make([]string, len(cp))
+			for i := range cp {
+				b, _ := json.Marshal(cp[i])
+				held[i] = string(b)
+			}
+			defer func(cp []eckg.LocalPartySaveData, held []string) {
+				for i := range cp {
+					if b, _ := json.Marshal(cp[i]); string(b) != held[i] && !rc.Failed() {
+						rc.Fail("key-data-modified", "signer %d: the key data handed to the signing party was modified by the session with a derivation offset:\n before %s\n after  %s", i, firstDiff(held[i], string(b), true), firstDiff(held[i], string(b), false))
+						rc.Res.Verdict = "violation"
+					}
+				}
+			}(cp, held)
 			nodes := w.AddECSigning(spids, cp, 2, msg, 0, delta)
 			w.AttachBasicInvariants()
 			cfg := sc.Sched
